@@ -86,3 +86,32 @@ __CPROVER_assigns()
 }
 //@ harness h_lemma_affine_@R@
 void h_lemma_affine_@R@(void){ int a_i = nondet_int(); lemma_affine_@R@(a_i); __CPROVER_assert(0, "VACUITY-CANARY"); }
+
+//@ lemma lemma_diff_@R@
+/* C05 on the dyadic lattice x = i*2^-@LX@, h = 2^-@LX@: every product below is an exact dyadic
+ * (level + lattice bits are small enough for 53 bits), so the identities are bit-exact.
+ *   order 1 (1 - |xn|):       eval(x+h) - eval(x) == h * diffSupport(x)    on one side of the node
+ *   order 2 (quadratic):      eval(x+h) - eval(x-h) == 2h * diffSupport(x) (central difference is exact for quadratics) */
+void lemma_diff_@R@(int p, int i)
+__CPROVER_requires(0 <= p && p < (1 << @LV@))
+__CPROVER_requires(-(1 << @LX@) < i && i < (1 << @LX@))
+__CPROVER_ensures(1)
+__CPROVER_assigns()
+{
+  double h = 1.0 / (double)(1 << @LX@), x = (double) i * h;
+  bool s0 = false, sm = false, sp = false, sd = false;
+  double e0 = evalSupport_@R@(@O@, p, x, &s0), em = evalSupport_@R@(@O@, p, x - h, &sm), ep = evalSupport_@R@(@O@, p, x + h, &sp);
+  double d = diffSupport_@R@(@O@, p, x, &sd);
+  double node = getNode_@R@(p);
+#if @O@ == 1
+  /* x and x+h inside the support, on the same side of the node (the kink is at the node) */
+  if (s0 && sp && sd && ((x >= node) == (x + h > node) || x + h <= node) && ((x + h <= node) || (x >= node)))
+    __CPROVER_assert(ep - e0 == h * d, "C05 order 1: the forward difference over one lattice cell equals h times the derivative (exact for a linear piece)");
+#else
+  if (s0 && sp && sm && sd)
+    __CPROVER_assert(ep - em == 2.0 * h * d, "C05 order 2: the central difference equals 2h times the derivative (exact for a quadratic piece)");
+#endif
+  __CPROVER_assert(!sd || s0, "C05 a point where the derivative is supported is a point where the function is supported");
+}
+//@ harness h_lemma_diff_@R@
+void h_lemma_diff_@R@(void){ int a_p = nondet_int(), a_i = nondet_int(); lemma_diff_@R@(a_p, a_i); __CPROVER_assert(0, "VACUITY-CANARY"); }
